@@ -149,6 +149,16 @@ def flat_tiling(tree, nbytes):
     return o == nbytes
 
 
+def long_text(kb, step, ch):
+    """directive-free text of kb KiB in which the multi-byte character ch straddles every multiple of step bytes"""
+    b = bytearray(b"wire w; /* ")
+    e = ch.encode("utf-8")
+    while len(b) < kb * 1024:
+        nxt = (len(b) // step + 1) * step
+        b += b"a" * (nxt - 1 - len(b)) + e
+    return b.decode("utf-8") + " */ x = y;\n"
+
+
 def check(ctx):
     prove(ctx, "C06")
     build_impl(ctx)
@@ -157,6 +167,9 @@ def check(ctx):
     q = ctx.quick()
     texts = ["", "a", "a \"s\";b\n", "é中 /* é */ \"é\"\n"]
     texts += [gen_text(r) for _ in range(250 if q else 4000)] + [gen_text(r, True) for _ in range(60 if q else 800)]
+    # long files read through the file entry point: multi-byte characters across every multiple of 1 / 4 / 8 KiB
+    for kb, step, ch in ([(20, 1024, "é"), (36, 8192, "中")] if q else [(20, 1024, "é"), (70, 4096, "中"), (140, 8192, "é"), (40, 8192, "😀")]):
+        texts.append(long_text(kb, step, ch))
     pcs = [ppx.PC({"top.sv": t}, predefs=ppx.predefs_random(r) if r.random() < 0.2 else [], tag="lexical") for t in texts]
     cases, res, diffs = ppx.correspond(ctx, "preprocess (directive-free texts) vs PP/Eval.v", pcs, "c06")
     impl = {c.id: rr for c, rr in zip(cases, res)}
